@@ -144,6 +144,30 @@ def check_case(ctx, case):
             _ = W.experimental
         if not same(obs(V), base):
             return fail(name + '-not-isolated', 'changing the %s changed the original' % name)
+    # clone / pickle of an instance that is not in its freshly constructed state: lag edges assigned through `bins`
+    # (the binning function stays set) must survive the copy
+    reg('copy-after-bins-assignment')
+    try:
+        V3 = build(case, c0.copy(), v0.copy())
+        with quiet():
+            e3 = np.asarray(V3.bins, float)
+            V3.bins = (e3 * 0.9).tolist()
+        b3 = obs(V3)
+    except (ValueError, RuntimeError) as e:
+        ctx.reject('bins-assignment:' + type(e).__name__)
+        b3 = None
+    if b3 is not None:
+        for name, mk in (('clone', lambda: V3.clone()), ('pickle', lambda: pickle.loads(pickle.dumps(V3)))):
+            try:
+                with quiet():
+                    W3 = mk()
+                ow3 = obs(W3)
+            except Exception as e:
+                return fail(name + '-fails', 'after bins=...: %s: %s' % (type(e).__name__, e))
+            if not same(ow3, b3, tol=1e-12):
+                what = [k for k in b3 if b3[k] != ow3[k]]
+                return fail(name + '-differs', '%s of an instance whose lag edges were assigned through `bins` yields '
+                            'different observable results: %r (edges %r vs %r)' % (name, what, ow3['bins'][:4], b3['bins'][:4]))
     # kriging keeps its own copy of the values
     if not case['cross']:
         reg('kriging-values')
@@ -250,7 +274,7 @@ def check_seeded_inprocess(ctx):
 
 
 def run(ctx):
-    for k in range(ctx.n(25, 250)):
+    for k in range(ctx.n(30, 500)):
         check_case(ctx, gen(ctx))
     for k in range(ctx.n(2, 10)):
         check_seeded_inprocess(ctx)
